@@ -96,14 +96,16 @@ struct Worker {
         vh::t_count = saved;
     }
     // returns true when the job finished, false when the thread is blocked
+    bool hook_present = true;   // decided once by the probe at start-up
     bool wait_settled(std::unique_lock<std::mutex> &lk) {
-        for (;;) {
-            if (cv.wait_for(lk, std::chrono::milliseconds(400), [&] { return done || blocked; })) return done;
-            if (!hooked) {  // library without the gen_block hook: a silent thread is a blocked thread
-                blocked = true;
-                return false;
-            }
+        if (hook_present) {
+            cv.wait(lk, [&] { return done || blocked; });
+            return done;
         }
+        // library without the gen_block hook (hooks/gen.patch not applied): a silent thread is taken to be blocked
+        if (cv.wait_for(lk, std::chrono::milliseconds(1500), [&] { return done || blocked; })) return done;
+        blocked = true;
+        return false;
     }
     bool run(std::function<void()> j) {
         std::unique_lock lk(mx);
@@ -491,6 +493,34 @@ int main(int argc, char **argv) {
     cocls::verif::get_hooks().block = &Worker::hook_block;
     w.start();
     w.run([] { coro_queue::install_queue_and_call([] {}); });
+    {   // probe: does generator::next_sync report through the block hook?
+        CtxBase pc;
+        static const long probe_script[] = {3, 1, 1, 1};
+        std::optional<generator<int>> g;
+        g.emplace(body0(&pc, probe_script, 4));
+        w.hook_present = false;
+        w.hooked = false;
+        {
+            std::unique_lock lk(w.mx);
+            w.job = [&] { bool b = g->next(); (void)b; };
+            w.has_job = true;
+            w.done = false;
+            w.blocked = false;
+            w.cv.notify_all();
+            w.cv.wait_for(lk, std::chrono::seconds(5), [&] { return w.done || w.blocked; });
+        }
+        bool seen = w.hooked;
+        promise<int> p = std::move(pc.prom);
+        p(0);
+        {
+            std::unique_lock lk(w.mx);
+            w.poke = true;
+            w.cv.notify_all();
+            w.cv.wait(lk, [&] { return w.done; });
+        }
+        g.reset();
+        w.hook_present = seen;
+    }
     for (auto &cs : vh::read_cases(argv[1])) {
         std::printf("CASE %s\n", cs.name.c_str());
         std::fflush(stdout);
